@@ -61,6 +61,8 @@ def run_property(pid, tier, jobs, *, native_len, timeout_s, functions, assumptio
             okey = (j.g.name, tuple(sorted(j.feats)), j.start)
             if okey not in oracles:
                 oracles[okey] = native.SpecOracle(j.spec, max(j.n, native_len))
+            if j.info and j.info.get(j.start, {}).get("recovery"):
+                continue        # with error recovery the public result of a non-sentence is not the plain LR verdict (C16's subject)
             act = [i for i, a in enumerate(j.spec.active) if a]
             for w in all_inputs(act, native_len):
                 queries.append((j.modname, j.start, w))
